@@ -42,7 +42,9 @@ def load_lock():
 
 
 def base_name(ob_name):
-    return ob_name.rsplit('@p', 1)[0]
+    import re
+    # path ids and source line numbers are not part of an obligation's identity
+    return re.sub(r'[@:]\d+\b', '', ob_name.rsplit('@p', 1)[0])
 
 
 def write_replay(pid, name, payload):
